@@ -26,11 +26,17 @@ Definition C05_roundtrip_full_statement : Prop :=
    scalars (opaque token in an <id>.npy member), scipy sparse matrices (<id>.npz), dtypes (through the carrier array
    the dumper creates), masked arrays, RandomState and Generator (through their state dicts), functools.partial;
    bytes / bytearray and their subclasses whose class name resolves at load (the content is an opaque token in a member
-   u<n>.bin named by the dumper's uuid counter, NOT by the object id); rank-1 object-dtype arrays (exact numpy.ndarray,
-   shape [len(cells)], any length incl. 0) whose cells are ANY values of the fragment, shared or not: the cells travel as
-   the content of the list tolist() creates, the shape as a fresh tuple the dumper creates around len(obj) -- one of
-   CPython's cached small ints when len(obj) <= 256 (then an object of the value's universe `objs`, possibly met before as
-   a cell or elsewhere in the value: a reference), a fresh int object otherwise (CodecShareFacts.shape_node, objarr_Q).
+   u<n>.bin named by the dumper's uuid counter, NOT by the object id); object-dtype arrays (exact numpy.ndarray) of EVERY
+   rank -- 0 included -- and every shape with as many cells as the shape says (shape_okb: zero-length axes included, shape
+   (2,0) travels as two empty lists, shape (0,2) as none) whose cells are ANY values of the fragment, shared or not: the cells
+   travel below the nested lists tolist() creates -- objects of the dumper (allocator labels), one ListNode per axis below the
+   first, the outermost list's own state being dropped; for rank 0 the one-element list around the cell (the repair of
+   C13-F1) -- and come back through the loader's cell-by-cell fill of np.empty(shape) (the repair of D10: cells that are
+   lists / tuples are cells, not axes; CodecShareFacts.tolist_QC, content_fill: the filling loop finds exactly the cells, in
+   C order, in these lists; rank 1: len(content) decides); the shape travels as the tuple obj.shape: the empty-tuple
+   singleton for rank 0 (an object of the value's universe `objs`: it may also be a cell, then a reference), otherwise a
+   fresh tuple around the axis lengths -- each one of CPython's cached small ints when <= 256 (an object of `objs`, possibly met
+   before as a cell or elsewhere in the value: a reference) or a fresh int object (CodecShareFacts.shape_QB, objarr_Q).
    A shared array is written once and referenced from every occurrence (member lookup by name: ShowFacts.show_Z_inj).
    A shared bytes object is written once PER OCCURRENCE (u<n>.bin, u<n'>.bin, ... with the same content: that is what
    bytes_get_state does); the loader builds the node of the first occurrence from whichever of these names the file
@@ -41,9 +47,7 @@ Definition C05_roundtrip_full_statement : Prop :=
    times (a DAG); the only requirement is that one label denotes one object (objs_wf: decidable).  The state get_state
    emits is loaded by get_tree + construct to exactly v, identity labels included -- the same sharing.
    c05_guard = fragb (the fragment) && objs_wf (labels) && need v <= default_fuel (nesting depth below the fuel).
-   Still missing from the full statement: object-dtype arrays of rank >= 2 (nested tolist() lists and the
-   np.array(..., dtype="O") rebuild; with sequence cells that is finding D10) and of rank 0, scipy sparse *arrays*
-   (object path).  The statement is about the entry points: dumps_model (incl. the root
+   Still missing from the full statement: scipy sparse *arrays* (object path).  The statement is about the entry points: dumps_model (incl. the root
    fields protocol/_skops_version of _save) does not raise and loads_model returns v.  The missing kinds are covered by the per-case evaluation `c05_case_same`
    and by the correspondence with the implementation (harness/props/c05.py). *)
 Theorem C05_roundtrip_partial :
@@ -85,7 +89,7 @@ Definition wbytes : pval :=
   let ba := PBytes 41 true (s "builtins") (s "bytearray") (s "0001ff") in
   ptuple 42 [plist 43 [bs; ba; bs]; pdict 44 [(kstr "k", bs); (kstr "same-content", PBytes 45 false (s "builtins") (s "bytes") (s "6162"))];
              PArr 46 false (s "numpy") (s "ndarray") (s "tok-f8-2x3"); ba; wshared].
-(* rank-1 object arrays: three cells (a list that also occurs outside the array, the shared bytes object, the cached int 3
+(* object arrays, rank 1: three cells (a list that also occurs outside the array, the shared bytes object, the cached int 3
    that is also len(obj)); an empty object array; an object array inside an object array *)
 Definition wobjarr : pval :=
   let sh := plist 50 [pint 1; pstr_ 51 "x"] in
@@ -110,11 +114,28 @@ Example C05_nonvacuous_bytes :
      = Ok [s "u0.bin"; s "u1.bin"; s "u2.bin"; s "u3.bin"; s "u4.bin"; s "46.npy"; s "u5.bin"].
 Proof. repeat split; vm_compute; reflexivity. Qed.
 
-(* non-vacuity for rank-1 object arrays (cells of any kind of the fragment, shared with the rest of the value) *)
+(* non-vacuity for object arrays, rank 1 (cells of any kind of the fragment, shared with the rest of the value) *)
 Example C05_nonvacuous_objarr :
   c05_guard wf (wd Snapshot.current) wbase wobjarr = true
   /\ roundtrip Snapshot.registry Snapshot.current wf (wd Snapshot.current) wbase wobjarr = Ok wobjarr.
 Proof. repeat split; vm_compute; reflexivity. Qed.
+
+(* non-vacuity for the other ranks (D10 / C13-F1 repaired): a rank-0 array holding a list; a (2,2) array of lists; a (2,0) array
+   (no cell, two empty lists in the archive); a value holding a rank-0 array whose cell is the empty tuple (the object that is
+   also its shape), a (1,2,1) array of a tuple and a list that occurs again outside, a (0,2) array, a (2,1) array of arrays *)
+Example C05_nonvacuous_objarr_ranks :
+  let sh := plist 80 [pint 1; pint 2] in
+  let a121 := PObjArr 81 (s "numpy") (s "ndarray") [1; 2; 1]%Z [ptuple empty_tuple_id []; sh] in
+  let v := ptuple 82 [PObjArr 83 (s "numpy") (s "ndarray") [] [ptuple empty_tuple_id []]; a121; sh;
+                      PObjArr 84 (s "numpy") (s "ndarray") [0; 2]%Z [];
+                      PObjArr 85 (s "numpy") (s "ndarray") [2; 1]%Z [a121; PObjArr 86 (s "numpy") (s "ndarray") [] [a121]]] in
+  forallb (fun w => c05_guard wf (wd Snapshot.current) wbase w && supported wf w
+                    && match roundtrip Snapshot.registry Snapshot.current wf (wd Snapshot.current) wbase w with
+                       | Ok w' => pval_eqb w' w | Raise _ => false end)
+    [w_objarr_rank0; w_objarr_seq; w_objarr_20; v] = true
+  /\ (do a <- dumps_model (wd Snapshot.current) wbase w_objarr_20; jindex (a_schema a) (s "content"))
+     = Ok (JArr [list_state [] (wbase + 1); list_state [] (wbase + 2)]).
+Proof. split; vm_compute; reflexivity. Qed.
 
 (* an object array with 257 cells: len(obj) is not a cached small int, the shape tuple holds a fresh int object *)
 Example C05_nonvacuous_objarr_long :
